@@ -103,7 +103,9 @@ def run_c10(ctx):
     cases = plan_cases(ctx, 3 if quick else 4, limit=300 if quick else None)
     tf = ctx.drive("plan", cases, hashseeds=(0, 1, 2) if quick else tuple(range(16)))
     ctx.validate(tf, {c["id"]: c for c in cases}, driver="plan")
-    rc = random_hist(ctx, 150 if quick else 3000, 12, base=30000)
+    rc = random_hist(ctx, 100 if quick else 2000, 12, base=30000)
+    # trajectories whose fluent values are not short decimals (0.1 increments, thirds, 1e-5 multiples)
+    rc += [gen_hist.gen_case(ctx.seed, 35000 + i, n_ops=12, noise=True) for i in range(60 if quick else 1200)]
     for c in rc:
         c["weights"] = "traj"
     tf2 = ctx.drive("hist", rc, hashseeds=(0, 1, 2) if quick else tuple(range(16)))
